@@ -40,6 +40,13 @@ func wxFieldOf(md protoreflect.MessageDescriptor, p *wProp) (protoreflect.FieldD
 const wireAnyType = "j5.types.date.v1.Date"
 const wireAnyJSON = `{"year":2024,"month":2,"day":29}`
 
+// ... and, when the codec does not look inside (no WithProtoToAny: the JSON text of the payload is carried as it is),
+// a payload whose strings hold the characters that JSON libraries like to escape on their own
+const wireAnyJSONText = `{"year":2024,"note":"<a&b> x>y \u2028 \\ \"q\" é"}`
+
+// wireAnyCur is the JSON payload of the case being run (set by wireDriver)
+var wireAnyCur = wireAnyJSON
+
 func wireAnyProto() []byte { return []byte{0x08, 0xe8, 0x0f, 0x10, 0x02, 0x18, 0x1d} }
 
 func wxAtomValue(fd protoreflect.FieldDescriptor, kind, atom string) (protoreflect.Value, error) {
@@ -114,7 +121,7 @@ func wxAnyValue(fd protoreflect.FieldDescriptor, n *wSch, v *wVal) (protoreflect
 		m.Set(f.ByName("j5_json"), protoreflect.ValueOfBytes([]byte("{}")))
 	}
 	if v.A == "json" || v.A == "both" {
-		m.Set(f.ByName("j5_json"), protoreflect.ValueOfBytes([]byte(wireAnyJSON)))
+		m.Set(f.ByName("j5_json"), protoreflect.ValueOfBytes([]byte(wireAnyCur)))
 	}
 	if v.A == "proto" || v.A == "both" {
 		m.Set(f.ByName("proto"), protoreflect.ValueOfBytes(wireAnyProto()))
@@ -324,7 +331,7 @@ func wxProjNode(n *wSch, pv protoreflect.Value) wVal {
 		}
 		out.Tn = m.Get(f.ByName("type_name")).String()
 		hasJ, hasP := m.Has(f.ByName("j5_json")), m.Has(f.ByName("proto"))
-		jOK := string(m.Get(f.ByName("j5_json")).Bytes()) == wireAnyJSON
+		jOK := string(m.Get(f.ByName("j5_json")).Bytes()) == wireAnyCur
 		pOK := string(m.Get(f.ByName("proto")).Bytes()) == string(wireAnyProto())
 		switch {
 		case hasJ && !hasP && string(m.Get(f.ByName("j5_json")).Bytes()) == "{}":
